@@ -253,7 +253,7 @@ func genCron(r *rand.Rand, n int, tier string) []Case {
 				final = 1250
 			}
 			if scen == 3 {
-				final = 2250
+				final = 2450 // (the callback that starts at S+1900 sleeps 300 ms: 250 ms of slack on a loaded machine)
 			}
 			if scen == 6 {
 				final = 4225
